@@ -1,5 +1,5 @@
 """What MANIFEST.json claims, per property (bin/mkmanifest renders it)."""
-HOOK_COMMITS = ["0d2849f"]
+HOOK_COMMITS = ["0d2849f", "ee1b138"]
 FIX_COMMITS = ["637e9cd", "9c26294", "53d59b1", "7c81d73", "b8335d9", "ba69dd9", "426de79", "35bd7d0", "c1ef8b6", "c8e6887", "847a1a5", "91556b7", "78156aa", "83bb8c4", "8065739", "64898f8", "70d2ff8", "96d6c55", "1ef9f29", "ec644a6", "826ef07", "d9567de", "552f738", "0658b0a"]
 
 TB = ("Trusted base: TLC; the harness projection (vertex identification, lattice-lookup fields, file parsers); "
@@ -255,7 +255,10 @@ CLAIMS = {
        "((*MeshSDF2).Boxes(): corners, split lines, split line x vertex level, +-1 ulp); seeded random star / thin / many-vertex / "
        "staircase polygons (some with vertices moved onto their own split lines, or 5e-10 .. 1e-8 of the polygon size beside "
        "them) are probed level with vertices and on split lines. PolyTrace.tla recomputes Inside and D2 exactly and judges sign, "
-       "distance (twice the clipper's snapping distance max(1e-9, 1e-14 x largest coordinate)) and quadtree vs brute force.",
+       "distance (twice the clipper's snapping distance max(1e-9, 1e-14 x largest coordinate)) and quadtree vs brute force. "
+       "Clip.tla / ClipM.tla specify the quadtree clipper in exact rationals (the four children partition every segment of a "
+       "node); every lattice segment of a node box goes through the real Box2.lineIntersect / quad0..3 at 6 placements and with "
+       "end points moved by about the snapping distance; ClipTrace.tla judges children, end points, lost parts, stray pieces.",
   design_ref="DESIGN.md section 6 C04", technique="TLC state-machine enumeration of simple lattice polygons + replay into the real polygon SDFs + TLC trace validation; real-valued probes measured against an exact-orientation brute force",
   note=TB + " Real-valued probe points (quadtree split lines are not lattice points) are judged against the harness's brute force, "
        "not against a TLC-computed value. The genuine defects this check found in the quadtree (winding, clipper) are repaired; "
